@@ -67,13 +67,11 @@ func (state *inflate) setupDynamicHeader() error {
 	state.dynHdr.litAndDistHuff = [litLenElems]huffCode{}
 	ctx := &state.dynHdr
 	var hclen, hdist, hlit uint64
+	// The flavour of the lookup table (1, 2 or 3 symbols per entry) decides how many symbols
+	// are rolled back together when the input ends inside an entry. It must not depend on how
+	// much input happens to be visible when the header is parsed, or a truncated stream would
+	// yield a different number of bytes for different delivery schedules.
 	var multisym uint32 = defaultSymFlag
-
-	if state.bfinal != 0 && len(state.input) <= singleSymThresh {
-		multisym = singleSymFlag
-	} else if state.bfinal != 0 && len(state.input) <= doubleSymThresh {
-		multisym = doubleSymFlag
-	}
 	state.loadBits()
 	if state.bitsLen < 14 {
 		return errEndInput
